@@ -253,6 +253,124 @@ Section Resolve.
   Qed.
 End Resolve.
 
+(* ---------------------------------------------------------------- scripted histories of the table itself *)
+Inductive op := OEnter | OLeave | OLoad (name path : string).
+
+Definition step (t : itab) (o : op) : outcome itab :=
+  match o with OEnter => Ok (enter t) | OLeave => leave t | OLoad n p => load t n p end.
+
+Fixpoint exec (t : itab) (ops : list op) : outcome itab :=
+  match ops with [] => Ok t | o :: r => bind (step t o) (fun t' => exec t' r) end.
+
+(* a script that a caller holding a table may run on it: it leaves every scope it enters, never leaves a scope it did not
+   enter, and binds names inside its own scopes only (d = number of own scopes currently open) *)
+Fixpoint wf_script (d : nat) (ops : list op) : bool :=
+  match ops with
+  | [] => (d =? 0)%nat
+  | OEnter :: r => wf_script (S d) r
+  | OLeave :: r => match d with O => false | S d' => wf_script d' r end
+  | OLoad _ _ :: r => match d with O => false | S _ => wf_script d r end
+  end.
+
+Lemma exec_restores ops : forall pre t, wf_script (List.length pre) ops = true -> exec (pre ++ t) ops = Ok t.
+Proof.
+  induction ops as [|o r IH]; intros pre t W; cbn in W.
+  - destruct pre; [reflexivity|discriminate].
+  - destruct o as [| |n p]; cbn [exec step].
+    + unfold enter. cbn [bind]. apply (IH ([] :: pre) t). exact W.
+    + destruct pre as [|s pre]; [discriminate|]. cbn. apply IH. exact W.
+    + destruct pre as [|s pre]; [discriminate|]. cbn. apply (IH (((n, p) :: s) :: pre) t). exact W.
+Qed.
+
+(* whatever a well-bracketed script binds (any names, any number of times per scope, any nesting), the table afterwards is
+   the table before *)
+Theorem script_balanced ops t : wf_script 0 ops = true -> exec t ops = Ok t.
+Proof. intros W. apply (exec_restores ops [] t W). Qed.
+
+(* the documented meaning of a lookup, stated on the history alone (newest operation first): the most recent binding of the
+   name whose scope has not been left, else the initial binding *)
+Fixpoint hist_lookup (skip : nat) (rh : list op) (name : string) (init : scope) : option string :=
+  match rh with
+  | [] => if (skip =? 0)%nat then sassoc name init else None
+  | OLeave :: r => hist_lookup (S skip) r name init
+  | OEnter :: r => hist_lookup (pred skip) r name init
+  | OLoad n p :: r => if (skip =? 0)%nat && String.eqb n name then Some p else hist_lookup skip r name init
+  end.
+
+Lemma exec_snoc ops : forall t o, exec t (ops ++ [o]) = bind (exec t ops) (fun t' => step t' o).
+Proof.
+  induction ops as [|a r IH]; intros t o; cbn.
+  - destruct (step t o); reflexivity.
+  - destruct (step t a); cbn; [apply IH|reflexivity].
+Qed.
+
+Lemma hist_lookup_spec init name h : forall t, exec [init] h = Ok t ->
+  forall k, hist_lookup k (rev h) name init = lookup (skipn k t) name.
+Proof.
+  induction h as [|o h IH] using rev_ind; intros t E k.
+  - cbn in E. inversion E; subst. cbn. destruct k; cbn.
+    + destruct (sassoc name init); reflexivity.
+    + destruct k; reflexivity.
+  - rewrite exec_snoc in E. destruct (exec [init] h) as [t0|] eqn:E0; [|discriminate]. cbn in E.
+    rewrite rev_app_distr. cbn [rev app]. specialize (IH t0 eq_refl).
+    destruct o as [| |n p]; cbn in E.
+    + inversion E; subst. unfold enter. cbn [hist_lookup]. rewrite IH. destruct k; reflexivity.
+    + destruct t0 as [|s r]; [discriminate|]. inversion E; subst. cbn [hist_lookup]. rewrite IH. reflexivity.
+    + destruct t0 as [|s r]; [discriminate|]. inversion E; subst. cbn [hist_lookup]. rewrite IH.
+      destruct k; cbn; [|reflexivity].
+      destruct (String.eqb n name); reflexivity.
+Qed.
+
+Theorem lookup_is_most_recent_live_binding init h t name :
+  exec [init] h = Ok t -> lookup t name = hist_lookup 0 (rev h) name init.
+Proof. intros E. rewrite (hist_lookup_spec init name h t E 0). reflexivity. Qed.
+
+(* what loadRuleGroup does to the table IS such a script: EnterScope; one Load per Import(); LeaveScope *)
+Definition import_ops (imps : list (string * string)) : list op := map (fun np => OLoad (fst np) (snd np)) imps.
+Definition group_script (imps : list (string * string)) : list op := OEnter :: import_ops imps ++ [OLeave].
+
+Lemma load_all_is_exec imps : forall t, load_all t imps = exec t (import_ops imps).
+Proof.
+  induction imps as [|[n p] r IH]; intros t; cbn; [reflexivity|].
+  destruct (load t n p); cbn; [apply IH|reflexivity].
+Qed.
+
+Lemma wf_import_ops imps : forall d rest, wf_script (S d) (import_ops imps ++ rest) = wf_script (S d) rest.
+Proof. induction imps as [|[n p] r IH]; intros d rest; cbn; [reflexivity|apply IH]. Qed.
+
+Theorem group_script_balanced imps t : exec t (group_script imps) = Ok t.
+Proof. apply script_balanced. unfold group_script. cbn [wf_script]. rewrite wf_import_ops. reflexivity. Qed.
+
+(* ---- running scripts: the visible table after every step *)
+Definition snapshot (names : list string) (t : itab) : list (option string) := map (lookup t) names.
+
+Fixpoint trace (names : list string) (t : itab) (ops : list op) : list (option (list (option string))) :=
+  match ops with
+  | [] => []
+  | o :: r => match step t o with
+              | Ok t' => Some (snapshot names t') :: trace names t' r
+              | Panic _ => [None]
+              end
+  end.
+
+Definition show_binding (paths : list string) (b : option string) : string :=
+  match b with
+  | None => "-"
+  | Some p => (fix go (i : nat) (l : list string) : string :=
+                 match l with
+                 | [] => "?"
+                 | q :: r => if String.eqb p q then String (Ascii.ascii_of_nat (48 + i)) EmptyString else go (S i) r
+                 end) 0%nat paths
+  end.
+
+Definition show_trace (paths names : list string) (init : scope) (ops : list op) : list string :=
+  map (fun s => match s with None => "panic" | Some bs => String.concat "" (map (show_binding paths) bs) end)
+      (trace names [init] ops).
+
+Example script_two_bindings_one_scope :
+  show_trace ["p";"q";"u"] ["a"] [("a","p")] [OEnter; OLoad "a" "q"; OLoad "a" "u"; OLeave; OEnter; OLeave] = ["0";"1";"2";"0";"0";"0"].
+Proof. reflexivity. Qed.
+
 (* ---------------------------------------------------------------- helpers for running the model on harness scenarios *)
 Definition show_res (r : resolved) : string :=
   match r with
